@@ -350,7 +350,11 @@ func Gen(r *rand.Rand, o GenOpts) *Doc {
 		}
 	}
 	if !o.NoRounding && r.Intn(25) == 0 {
-		x := genAmt(r, 2, int(c), 0.5)
+		maxE := int(c)
+		if !o.CurrencyOnly && r.Intn(3) == 0 {
+			maxE = int(c) + 2 // an externally supplied rounding finer than the currency: an input like any other
+		}
+		x := genAmt(r, 2, maxE, 0.5)
 		if o.CurrencyOnly {
 			x = Amt{x.V, c}
 		}
@@ -376,6 +380,22 @@ func Gen(r *rand.Rand, o GenOpts) *Doc {
 				}
 			}
 			d.Advances = append(d.Advances, a)
+		}
+		if r.Intn(6) == 0 {
+			// advances given as percentages that add up to exactly 100 %: each is rounded on its own,
+			// so their presented sum need not be the payable amount and the due amount need not be zero
+			d.Advances = nil
+			splits := [][]Amt{{{1, 0}}, {{100, 2}}, {{50, 2}, {50, 2}}, {{5, 1}, {5, 1}}, {{3333, 4}, {3333, 4}, {3334, 4}},
+				{{25, 2}, {75, 2}}, {{125, 3}, {875, 3}}, {{1, 2}, {99, 2}}}
+			sp := splits[r.Intn(len(splits))]
+			if r.Intn(3) == 0 {
+				a := int64(1 + r.Intn(9999))
+				sp = []Amt{{a, 4}, {10000 - a, 4}}
+			}
+			for _, p := range sp {
+				q := p
+				d.Advances = append(d.Advances, Adv{Percent: &q})
+			}
 		}
 		for k := r.Intn(4) - 1; k > 0; k-- {
 			var a Adv
